@@ -298,6 +298,40 @@ def run(tier: str) -> int:
             rep.violation(f"constants: compiler died with {type(e).__name__}: {str(e)[:200]} (assembleConstants=True, v{v})",
                           {"kind": "constants", "index": k, "version": v, "mode": mode_c})
 
+    # ---- (a3) a routine first compiled inside Router.compile_program (which rewinds the slot-id counter afterwards while the routine
+    # keeps its slots), then used by an ordinary program next to k freshly created variables: distinct variables may then carry EQUAL
+    # automatic ids; the program is well typed, small, and must be accepted
+    for v in ((6, 8) if tier == "quick" else (6, 7, 8, 10)):
+        for k in range(1, 10):
+            evaluations += 1
+            try:
+                hv = _pt.ScratchVar(_pt.TealType.uint64)
+
+                def _helper(x):
+                    return _pt.Seq(hv.store(x + _pt.Int(1)), hv.load())
+                helper = _pt.Subroutine(_pt.TealType.uint64, name="helper")(_helper)
+                router = _pt.Router("c20", _pt.BareCallActions(no_op=_pt.OnCompleteAction.create_only(_pt.Approve())))
+
+                def _m(a, *, output):
+                    return output.set(helper(a.get()))
+                _m.__annotations__ = {"a": _pt.abi.Uint64, "output": _pt.abi.Uint64, "return": _pt.Expr}
+                _m.__name__ = "m"
+                router.add_method_handler(_pt.ABIReturnSubroutine(_m))
+                router.compile_program(version=v)
+                vs_ = [_pt.ScratchVar(_pt.TealType.uint64) for _ in range(k)]
+                prog_ = _pt.Seq(*[x.store(_pt.Int(i)) for i, x in enumerate(vs_)], _pt.Pop(helper(_pt.Int(3))),
+                                *[_pt.Pop(x.load()) for x in vs_], _pt.Pop(helper(vs_[-1].load())), _pt.Approve())
+                t_ = _pt.compileTeal(prog_, _pt.Mode.Application, version=v)
+                stats["after-router:ok"] += 1
+                distinct.add(t_)
+            except (_pt.TealInputError, _pt.TealCompileError, _pt.TealTypeError, _pt.TealInternalError, _pt.TealPragmaError) as e:
+                stats["after-router:err"] += 1
+                rep.violation(f"after-router: a well-typed program with {k + 1} variables that calls a routine first compiled inside a Router was rejected: "
+                              f"{type(e).__name__}: {str(e)[:200]} (v{v})", {"kind": "after-router", "k": k, "version": v})
+            except Exception as e:  # noqa: BLE001
+                stats["after-router:crash"] += 1
+                rep.violation(f"after-router: compiler died with {type(e).__name__}: {str(e)[:200]} (v{v}, k={k})", {"kind": "after-router", "k": k, "version": v})
+
     # ---- (b) random well-typed programs, model outcome class vs real outcome class
     nrand = 260 if tier == "quick" else 4000
     for i in range(nrand):
